@@ -146,7 +146,10 @@ func (dc *DeploymentController) reconcileOldReplicaSets(ctx context.Context, all
 	klog.V(4).Infof("Cleaned up unhealthy replicas from old RSes by %d", cleanupCount)
 
 	// Scale down old replica sets, need check maxUnavailable to ensure we can scale down
-	allRSs = append(oldRSs, newRS)
+	// Build allRSs on a fresh backing array: oldRSs may have spare capacity, and
+	// scaleDownOldReplicaSetsForRollingUpdate sorts allRSs in place (FindNewReplicaSet),
+	// which must not reorder/replace the elements of oldRSs.
+	allRSs = append(append(make([]*apps.ReplicaSet, 0, len(oldRSs)+1), oldRSs...), newRS)
 	scaledDownCount, err := dc.scaleDownOldReplicaSetsForRollingUpdate(ctx, allRSs, oldRSs, deployment)
 	if err != nil {
 		return false, nil
